@@ -691,10 +691,14 @@ class Body:
         return [c for c in self._calls if c.is_(*pats)]
 
     def call_at(self, b):
-        for c in self.calls():
-            if c.b == b:
-                return c
-        return None
+        """The Call of block b (also for a dead block, which `calls()` does not list: callers that walk raw blocks must not crash)."""
+        if getattr(self, '_call_by_block', None) is None:
+            self._call_by_block = {c.b: c for c in self.calls()}
+        c = self._call_by_block.get(b)
+        if c is None and 0 <= b < len(self.blocks) and self.blocks[b]['term']['k'] == 'call':
+            c = Call(self, b, self.blocks[b]['term'])
+            self._call_by_block[b] = c
+        return c
 
     # --------------------------------------------------------------- defs
     def refs(self):
@@ -796,8 +800,10 @@ class Body:
             return self._defs
         defs = defaultdict(list)
         refs = self.refs()
+        live = self.live_blocks()
         for bi, b in enumerate(self.blocks):
-            if b['cleanup']:
+            if b['cleanup'] or bi not in live:
+                # dead code (a switch on a literal, the arm of an exhaustive match that cannot be taken) is outside the program
                 continue
             for si, st in enumerate(b['st']):
                 lhs, rv = st['lhs'], st['rv']
